@@ -856,7 +856,7 @@ pub fn judge_free(rep: &mut Report, seed: u64, o: &Outcome) {
 pub fn run(rep: &mut Report) {
     rep.rule = "the real TaskBlockingQueue (built through BlockingMap / TaskBlockingQueueSenderFactory) with a recording backend sender that keeps commands in flight and a recording re-dispatch sender; 2-3 sender threads (1-3 tasks each, hints built like the migrating task builds them, up to 3 retries), 1-2 controllers (start_blocking, poll blocking_done, hold, drop the handle) and a backend thread; a cooperative scheduler installed at the verif_point hooks releases one thread at a time, uniformly at random or PCT-style. Oracle over the totally ordered log: no backend hand-over between BARRIER_DONE and the CAS that brings the blocker count to 0; every task handled exactly once; re-dispatch only after an unblock; nothing left parked. distinct_nontrivial = distinct schedules (hash of the (thread, point) sequence)".to_string();
     let thorough = rep.is_thorough();
-    let n: u64 = if thorough { 1_500_000 } else { 20_000 };
+    let n: u64 = if thorough { 400_000 } else { 20_000 };
     let seed = rep.seed;
     let next = Arc::new(AtomicU64::new(0));
     let mut handles = vec![];
